@@ -172,7 +172,8 @@ KANI.update({
 _GEOM_ASSUMPTIONS = [
     "nalgebra shim (prelude/nalgebra_shim.rs): Point2/Vector2/Translation2/Rotation2/Matrix3/Transform2 specified as 3x3 real matrix algebra incl. the homogeneous divide of Transform<TGeneral>*Point; sanity-checked on the real crate by K:k_shim_transform (thorough tier), not proved",
     "uninterpreted sin_r/cos_r/sqrt_r/acos_r/pi_r/fmod_r with the axioms listed in coverage.trusted_base (sin^2+cos^2=1, cos(pi/2)=0, fmod = C fmod)",
-    "iterator plumbing (map/flat_map/iproduct/any/sum/fold) is not under contract: closure bodies are proved as slices (rule R13) and `.map(f).map(g)` is assumed to apply g(f(.)) to each element in order",
+    "rule R16: iterator chains of the anchored functions are desugared mechanically into eager index loops (same elements, same order) before verification — i.e. the semantics of core::iter / itertools map, filter, flat_map, enumerate, skip, tuple_combinations, iproduct!, any, sum, fold, collect is ASSUMED, laziness dropped; chains not desugared (still outside any contract): enclosing_radius folds (only their closure bodies are proved), get_corners, the shapes' transform() map/collect, LineShape::from_radial zip/cycle/skip, WyckoffSite::new map/collect, initialise() fold/map/collect, to_svg loops",
+    "values returned by iterator-returning helpers are named by uninterpreted sequences (cart_seq, rel_seq, pos_seq, images_seq): exec code is deterministic, so the postconditions proved of the desugared bodies hold of those values",
     "SharedValue is read through a value shim in these units; writes are proved on the real pointers by Kani (K:k_basis_*)",
 ]
 
@@ -185,23 +186,23 @@ PROPS["C12"] = dict(
     assumptions=_GEOM_ASSUMPTIONS,
     undecided=["the geometric theorem 'two convex polygons' interiors intersect iff two non-parallel closed edges meet (up to touching)' is about polygons, not code: not proved",
                "rounding at exactly aligned configurations (Theory M reads floats as reals)",
-               "LineShape::intersects / MolecularShape2::intersects `iproduct!(..).any(..)` plumbing: assumed to be the disjunction over component pairs"],
+               "a restructured iterator chain (other adapters, nested closures) is outside the R16 catalogue: such a change makes the check undecided (exit 2), not alarmed"],
 )
 PROPS["C13"] = dict(
     level="other", units=["pairs"], kani=[], lemmas=["lj-r2", "lj-min", "lj-cut", "lj-symmetric-like", "lj-symmetric"],
     explanation="Verus proves the real LJ2::energy equals the shifted, truncated 12-6 law written from the property (lj_energy: 4 eps (s^6 - s^3) with s = sigma^2/r^2, minus the same at the cutoff when r^2 < cutoff^2, exactly 0 beyond), "
                 "depends on the positions only through |p-q|^2, and that Mul<Transform2> keeps sigma/epsilon/cutoff and maps the position. z3 lemmas: (sigma/r)^6 = (sigma^2/r^2)^3; minimum -eps exactly at (sigma/r)^6 = 1/2; "
-                "the shifted form vanishes at the cutoff; symmetric for like particles. The unconditional symmetry clause is refuted (known finding D9: the body uses self's sigma/epsilon only).",
+                "the shifted form vanishes at the cutoff; symmetric for like particles. The real LJShape2::energy (iproduct!.map.sum desugared by R16) is the sum over all particle pairs. The unconditional symmetry clause is refuted (known finding D9: the body uses self's sigma/epsilon only).",
     assumptions=_GEOM_ASSUMPTIONS,
-    undecided=["molecule energy = sum over atom pairs (`iproduct!.map.sum` plumbing in LJShape2::energy) is assumed", "LJShape2::from_trimer's map closure (sigma = 2 radius, cutoff 3.5) is not under contract yet"],
+    undecided=["LJShape2::from_trimer's map closure (sigma = 2 radius, cutoff 3.5) is not under contract"],
 )
 PROPS["C14"] = dict(
     level="other", units=["geom"], kani=["k_shim_transform"], lemmas=["lattice-area"],
     explanation="Unbounded (Verus, all cell parameters): the real to_cartesian/to_cartesian_point/center map (x,y) to x*A + y*B with A=(a,0), B=(b cos t, b sin t); to_cartesian_isometry and "
                 "to_cartesian_translate keep the linear part and map the translation to C(t) resp. C(t) + n*A + m*B; area = A x B (z3: equals a b sin t >= 0). "
-                "Enumeration of images by the `iproduct!.filter.map` chain is NOT decided: a bounded Kani harness on an exact integer lattice needed 28 min for one shell and was removed (DESIGN 9: 10-minute rule).",
+                "The real periodic_images (iproduct!.filter.map desugared by R16) is proved sound and complete for every shell count: each element is the placement translated by some n*A+m*B with |n|,|m| <= k (the untranslated one only when asked), orientation unchanged, and every such offset occurs.",
     assumptions=_GEOM_ASSUMPTIONS,
-    undecided=["periodic_images: that the iterator yields exactly the (2k+1)^2 (-1) pairs (n,m), each once — iterator plumbing, only the per-element map to_cartesian_translate is proved", "get_corners (map/collect plumbing)"],
+    undecided=["'each once': multiplicity of an offset in periodic_images is not stated (soundness + completeness are; a bounded Kani count did not finish)", "get_corners (map/collect plumbing)"],
 )
 PROPS["C15"] = dict(
     level="other", units=["geom"], kani=["k_wrap_range", "k_shim_transform"], lemmas=[],
@@ -209,8 +210,7 @@ PROPS["C15"] = dict(
                 "the real Transform2*Transform2 is the matrix product; the two closure bodies of OccupiedSite::positions (sym*transform, then periodic(1,-0.5)) compose to the property's placement_ok(g_k, site, r) "
                 "(lemma_placement); multiplicity = number of operations. Kani adds the float-level range claim for |x| <= 8 (bounded).",
     assumptions=_GEOM_ASSUMPTIONS,
-    undecided=["`map.map` plumbing of positions(): that element k of the iterator is closure2(closure1(symmetries[k])) is assumed adapter semantics",
-               "the 2*pi periodicity clause for orientations rests on periodicity of sin/cos (axiom), not on code"],
+    undecided=["the 2*pi periodicity clause for orientations rests on periodicity of sin/cos (axiom), not on code"],
 )
 PROPS["C02"] = dict(
     level="other", units=["pairs", "geom"], kani=[], lemmas=["lattice-area"],
@@ -220,7 +220,7 @@ PROPS["C02"] = dict(
     assumptions=_GEOM_ASSUMPTIONS,
     undecided=["'score <= 1' needs the measure-theoretic fact that N non-overlapping copies of area A fit in a cell of area |AxB| only if N*A <= |AxB|: not code, not proved",
                "pairwise inclusion-exclusion in MolecularShape2::area is the union area only without triple overlaps / contained discs (known finding D2)",
-               "LineShape::area closure and all sum/fold plumbing"],
+               "that sum-of-edge-triangles is the polygon's area (needs convexity / star-shapedness about the origin: geometry, not code)"],
 )
 PROPS["C04"] = dict(
     level="other", units=["geom"], lemmas=["sym-commute"],
@@ -230,13 +230,13 @@ PROPS["C04"] = dict(
                 "so cos t = 0 is invariant for the mirror/glide groups; (5) z3: diag(+-1,+-1) commutes with C when it is +-I or cos t = 0, hence the Cartesian operation (M, C t_g) is an isometry mapping placement k onto placement k' "
                 "with g g_k = g_k' mod lattice (closure proved on the tables under C16).",
     assumptions=_GEOM_ASSUMPTIONS + ["in floats cos(PI/2) is 6e-17, not 0: the residual shear of a 'rectangular' cell is a rounding effect outside Theory M"],
-    undecided=["`map.map`/`flat_map` plumbing of positions()/relative_positions()", "the composition of steps (1)-(5) is a paper argument (DESIGN §5 C04), each step is machine-checked"],
+    undecided=["the composition of steps (1)-(5) is a paper argument (DESIGN §5 C04), each step is machine-checked"],
 )
 
 # ---------------------------------------------------------------- state level (C01, C03, C08, C10) and C02 update
 _STATE_ASSUMPTIONS = _GEOM_ASSUMPTIONS + [
     "contract on Shape implementors (trait shim ShapeT/PotT): area(), enclosing_radius(), energy() are functions of the shape only; every component of a shape lies within enclosing_radius of its origin (the fold(MIN, max) plumbing of enclosing_radius is assumed)",
-    "PackedState::check_intersection and both total_shapes are iterator chains: their loop structure (which pairs are visited) is NOT under contract; only the statements deciding how far to look (shell count), what to skip (prefilter) and with which weight a pair enters the sum are proved, as R13 slices",
+    "contract on Shape implementors also includes intersects() == overlaps-relation and transform() == moved(): for the real shapes these are proved in unit pairs (component level and shape level) except transform()'s map/collect",
 ]
 PROPS["C02"]["units"] = ["pairs", "geom", "state"]
 PROPS["C02"]["lemmas"] = ["lattice-area", "trimer-area-pre"]
@@ -247,23 +247,26 @@ PROPS["C02"]["explanation"] = (
 PROPS["C01"] = dict(
     level="other", units=["state", "geom", "pairs"], kani=["k_wrap_range"],
     lemmas=["shell-x", "shell-y", "shell-wrap", "disc-meaning", "seg-witness", "seg-unique"],
-    explanation="Arithmetic core, unbounded: (1) score() is Some iff check_intersection() is false (Verus, real score); (2) the shell count used by the real check_intersection is Cell2::periodic_shells(2R), "
-                "whose real body Verus proves to return k with k*a*sin t >= 2R and k*b*sin t >= 2R for every cell (this replaced the aspect-ratio heuristic, defect D1, fixed); "
-                "(3) z3: copies are wrapped into [-1/2,1/2) (C15), so an image more than k cells away has a fractional offset > k, hence a centre distance > 2R, hence cannot overlap a shape that lies within R of its centre; "
-                "(4) the prefilter skips a pair only if its squared centre distance exceeds (2R)^2 (Verus, real statements as slices); (5) the pair predicate is the exact crossing/disc test (C12). "
-                "Which pairs the loops visit (in-cell skip(index+1), images from periodic_images) is iterator plumbing: assumed (no bounded stand-in finished within 10 minutes).",
+    explanation="Unbounded (Verus) on the real code: (1) score() is Some iff check_intersection() is false; (2) the WHOLE real check_intersection (iterator loops desugared by rule R16) returns true iff "
+                "some pair i<j inside the cell overlaps or some copy i overlaps one of the images — within k shells, the untranslated one excluded — of some copy j whose centre is within 2R (ci.post, all copy counts, all shell counts); "
+                "(3) k = Cell2::periodic_shells(2R) satisfies k*a*sin t >= 2R and k*b*sin t >= 2R (this replaced an aspect-ratio heuristic: defect D1, fixed); periodic_images yields exactly the translates n*A+m*B, |n|,|m| <= k (sound + complete); "
+                "positions() yields wrap(g_k*T) inside [-1/2,1/2)^2; (4) z3: an image more than k cells away then has centre distance > 2R, and shapes within R of their centres cannot overlap at that distance; "
+                "(5) the shape-level and component-level pair predicates are the exact crossing / disc tests (C12).",
     assumptions=_STATE_ASSUMPTIONS,
-    undecided=["loop structure of check_intersection (enumerate/skip/flat_map/periodic_images) — not under contract", "polygon-level geometry and rounding at exactly aligned configurations (see C12)",
+    undecided=["polygon-level geometry ('interiors intersect iff two non-parallel closed edges meet') and rounding at exactly aligned configurations (see C12)",
+               "'every component lies within enclosing_radius of the origin': per-component closure bodies are proved, the fold(MIN, max) over components is not",
+               "steps (1)-(5) are each machine-checked; their composition into 'no overlap anywhere in the tiling' is a paper argument (DESIGN I.5)",
                "reachability along optimisation histories is C06/C20 (the optimiser only keeps scored states)"],
 )
 PROPS["C03"] = dict(
     level="other", units=["state", "pairs", "geom"], kani=[], lemmas=["lj-symmetric-like", "lj-symmetric"],
-    explanation="Verus proves, on the real statements of PotentialState::score taken as slices, the weight with which a visited pair enters the sum: in-cell pairs (each unordered pair once) weight 1, "
-                "pairs with a periodic image (found from both members) weight 1/2 — the halving was missing (defect D3a, fixed: the same p2 crystal scored -42.06 or -20.14) — and score = -sum / copies. "
-                "The pair energy is the 12-6 law of |p-q|^2 only (C13) and Mul<Transform2> moves positions only. Representation independence additionally needs E(a,b) = E(b,a): refuted for unlike particles (known finding D9).",
+    explanation="Unbounded (Verus) on the real code: the WHOLE real PotentialState::score (iterator loops desugared by rule R16) equals -(sum over unordered in-cell pairs E(i,j) + 1/2 * sum over i, j and the 3-shell images t of j of E(i, image)) / copies "
+                "— the property's lattice energy per molecule with every physical pair counted once (the halving was missing: defect D3a, fixed: the same p2 crystal scored -42.06 or -20.14). "
+                "LJShape2::energy is the sum over particle pairs; LJ2::energy the shifted truncated 12-6 law of |p-q|^2 (C13); periodic_images yields exactly the translates; positions are wrapped into one cell. "
+                "Representation independence additionally needs E(a,b) = E(b,a): refuted for unlike particles (known finding D9).",
     assumptions=_STATE_ASSUMPTIONS,
-    undecided=["which index sets the two loop nests range over (iterator plumbing)", "the image range is a fixed 3 shells: pairs within the cutoff are missed once 3*min(a,b)*sin t < cutoff + 2R (D3b, not decided here: no contract ties the shell count to the cutoff)",
-               "convergence error of the truncated sum for the uncut potential"],
+    undecided=["the image range is a fixed 3 shells: pairs within the cutoff are missed once 3*min(a,b)*sin t < cutoff + 2R (D3b: no contract ties the shell count to the cutoff; no failing input constructed)",
+               "convergence error of the truncated sum for the uncut potential", "invariance of the total under re-description of the crystal is argued from the formula, not proved as a two-state theorem"],
 )
 PROPS["C08"] = dict(
     level="proof", units=["opt", "state", "geom"], kani=["k_basis_set_reset", "k_cell_dof", "k_cell_from_family", "k_site_basis", "k_clone_cell", "k_clone_site"] + ["k_tables_label_%s" % g for g in _GROUPS], lemmas=[],
@@ -272,7 +275,8 @@ PROPS["C08"] = dict(
                 "its bounds at every step and at both exits (inv.wf, exit*.held), and that the final assert (defined score) cannot fail. Kani proves the same bounds, the frame (a parameter without a handle keeps its bits: the cell stays in its family) "
                 "and the clamp on the real pointers for all bit patterns, which also gives chaining: bounds re-derived from in-range values are sub-ranges.",
     assumptions=_OPT_ASSUMPTIONS + _GEOM_ASSUMPTIONS[2:],
-    undecided=["'every supported group with any shape starts from a valid state': from_family/from_wyckoff values are proved (initial ratio 1, angle pi/2 or pi/3, position -1/2+1/(2N) in range, length 4RN); that the initial copies do not overlap is not proved"],
+    undecided=["'every supported group with any shape starts from a valid state': Verus proves on the real PackedState::initialise / from_family / from_wyckoff that the initial parameters are in range (ratio 1, angle pi/2 or pi/3, positions -1/2+1/(2N), length 4RN >= 0.01 when R >= 0.0025/N); that the initial copies do not overlap (defined score) is NOT proved",
+               "PotentialState::initialise (same code with 2RN) is not extracted separately"],
 )
 PROPS["C10"] = dict(
     level="other", units=["state", "opt"], kani=["k_tables_label_%s" % g for g in _GROUPS] + ["k_clone_cell", "k_clone_site"], lemmas=[],
